@@ -13,6 +13,8 @@ Section Hist.
   Variables L I : nat.
   Hypothesis HI : I = L / 2.
   Hypothesis HI3 : 3 <= I.
+  Variable H : nat.                    (* ZIX_BTREE_MAX_HEIGHT *)
+  Hypothesis HH : 1 <= H.
   Notation node := (node elt).
   Notation tree := (tree elt).
 
@@ -25,7 +27,7 @@ Section Hist.
 
   Definition step (t : tree) (x : op) : tree :=
     match x with
-    | OInsert o e => snd (fst (fst (insert rank dflt L I o t e)))
+    | OInsert o e => snd (fst (fst (insert rank dflt L I H o t e)))
     | ORemove e => snd (fst (fst (remove rank dflt L I t e)))
     | OFind _ => t
     | OClear d => fst (clear t d)
@@ -33,12 +35,12 @@ Section Hist.
 
   Definition run (ops : list op) : tree := fold_left step ops empty_tree.
 
-  (* the same history on the sorted-list spec; an insert whose allocation failed leaves the set alone *)
+  (* the same history on the sorted-list spec; an insert that reported NO_MEM or OVERFLOW leaves the set alone *)
   Definition spec_step (t : tree) (s : list elt) (x : op) : list elt :=
     match x with
     | OInsert o e =>
-      match fst (fst (fst (insert rank dflt L I o t e))) with
-      | NO_MEM => s
+      match fst (fst (fst (insert rank dflt L I H o t e))) with
+      | NO_MEM | OVERFLOW => s
       | _ => snd (set_insert elt rank s e)
       end
     | ORemove e => snd (set_remove elt rank s (rank e))
@@ -52,7 +54,7 @@ Section Hist.
     | x :: ops' => spec_run_from (step t x) (spec_step t s x) ops'
     end.
 
-  (* histories without allocation failure: the plain fold of the spec *)
+  (* histories without allocation failure that stay below the capacity cap(L,I,H): the plain fold of the spec *)
   Definition plain_step (s : list elt) (x : op) : list elt :=
     match x with
     | OInsert _ e => snd (set_insert elt rank s e)
@@ -62,25 +64,39 @@ Section Hist.
     end.
   Definition no_fail (x : op) : Prop :=
     match x with OInsert o _ => forall b, In b o -> b = true | _ => True end.
+  (* the set is smaller than cap(L,I,H) before every call *)
+  Fixpoint below_cap (s : list elt) (ops : list op) : Prop :=
+    match ops with
+    | [] => True
+    | x :: ops' => length s < cap L I H /\ below_cap (plain_step s x) ops'
+    end.
 
-  Lemma step_inv : forall t x, Inv rank L I t ->
-    Inv rank L I (step t x) /\ elements (root (step t x)) = spec_step t (elements (root t)) x.
+  (* the reachable invariant: the C01 invariant and at most H levels *)
+  Definition InvH (t : tree) : Prop := Inv rank L I t /\ height (root t) <= H.
+
+  Lemma InvH_empty : InvH empty_tree.
+  Proof. split; [apply (Inv_empty _ rank dflt L I HI HI3)|cbn; lia]. Qed.
+
+  Lemma step_inv : forall t x, InvH t ->
+    InvH (step t x) /\ elements (root (step t x)) = spec_step t (elements (root t)) x.
   Proof.
-    intros t x Hinv. destruct x as [o e|e|e|d]; cbn [step spec_step].
-    - pose proof (insert_refines elt rank dflt L I HI HI3 o t e Hinv) as H.
-      destruct (insert rank dflt L I o t e) as [[[st t'] o'] lg]. cbn [fst snd].
-      destruct H as (Hi & Hst & Hok & Hnm & _). split; [assumption|].
-      destruct st; try (rewrite <- (Hok ltac:(discriminate)); reflexivity).
-      apply Hnm. reflexivity.
-    - pose proof (remove_refines elt rank dflt L I HI HI3 t e Hinv) as H.
-      destruct (remove rank dflt L I t e) as [[[[st out] t'] it] lg]. cbn [fst snd].
-      destruct H as (Hi & Heq & _). split; [assumption|]. rewrite <- Heq. reflexivity.
-    - auto.
-    - split; [apply (Inv_empty _ rank dflt L I HI HI3)|reflexivity].
+    intros t x [Hinv Hht]. destruct x as [o e|e|e|d]; cbn [step spec_step].
+    - pose proof (insert_refines elt rank dflt L I HI HI3 H o t e Hinv) as R.
+      destruct (insert rank dflt L I H o t e) as [[[st t'] o'] lg]. cbn [fst snd].
+      destruct R as (Hi & Hst & Hok & Hnm & _ & _ & Hov & Hh). split; [split; auto|].
+      destruct st; try (rewrite <- (Hok ltac:(discriminate) ltac:(discriminate)); reflexivity).
+      + apply Hnm. reflexivity.
+      + destruct (Hov eq_refl) as [-> _]. reflexivity.
+    - pose proof (remove_refines elt rank dflt L I HI HI3 t e Hinv) as R.
+      pose proof (remove_height elt rank dflt L I HI HI3 t e Hinv) as Rh.
+      destruct (remove rank dflt L I t e) as [[[[st out] t'] it] lg]. cbn [fst snd] in *.
+      destruct R as (Hi & Heq & _). split; [split; [assumption|lia]|]. rewrite <- Heq. reflexivity.
+    - split; [split; assumption|reflexivity].
+    - split; [apply InvH_empty|reflexivity].
   Qed.
 
-  Lemma run_from_inv : forall ops t, Inv rank L I t ->
-    Inv rank L I (fold_left step ops t) /\
+  Lemma run_from_inv : forall ops t, InvH t ->
+    InvH (fold_left step ops t) /\
     elements (root (fold_left step ops t)) = spec_run_from t (elements (root t)) ops.
   Proof.
     induction ops as [|x ops IH]; intros t Hinv; cbn [fold_left spec_run_from]; [auto|].
@@ -88,36 +104,67 @@ Section Hist.
     split; [assumption|]. rewrite He', He. reflexivity.
   Qed.
 
+  Theorem invH_reachable : forall ops, InvH (run ops).
+  Proof. intros ops. apply run_from_inv. apply InvH_empty. Qed.
+
   Theorem inv_reachable : forall ops, Inv rank L I (run ops).
-  Proof. intros ops. apply run_from_inv. apply (Inv_empty _ rank dflt L I HI HI3). Qed.
+  Proof. intros ops. apply invH_reachable. Qed.
+
+  (* every reachable tree has at most H levels, and no iterator path is longer than H *)
+  Theorem depth_reachable : forall ops,
+    height (root (run ops)) <= H /\ forall p, valid (root (run ops)) p -> length p <= H.
+  Proof.
+    intros ops. destruct (invH_reachable ops) as [Hinv Hh]. split; [assumption|].
+    intros p V.
+    pose proof (valid_length elt rank dflt L I HI HI3 (root (run ops)) p
+                  (Inv_shape _ rank dflt L I HI HI3 _ Hinv) V). lia.
+  Qed.
 
   Theorem run_refines_gen : forall ops,
     elements (root (run ops)) = spec_run_from empty_tree [] ops.
-  Proof. intros ops. apply (run_from_inv ops empty_tree). apply (Inv_empty _ rank dflt L I HI HI3). Qed.
+  Proof. intros ops. apply (run_from_inv ops empty_tree). apply InvH_empty. Qed.
+
+  (* below the capacity an insert cannot be refused with OVERFLOW *)
+  Lemma no_overflow_below_cap : forall o t e, Inv rank L I t ->
+    length (elements (root t)) < cap L I H ->
+    fst (fst (fst (insert rank dflt L I H o t e))) <> OVERFLOW.
+  Proof.
+    intros o t e Hinv Hsz.
+    pose proof (insert_refines elt rank dflt L I HI HI3 H o t e Hinv) as R.
+    destruct (insert rank dflt L I H o t e) as [[[st t'] o'] lg]. cbn [fst].
+    destruct R as (_ & _ & _ & _ & _ & _ & Hov & _). intros ->.
+    destruct (Hov eq_refl) as (_ & _ & _ & Hf & Hh).
+    pose proof (full_root_cap elt rank dflt L I HI HI3 t H Hinv HH Hf Hh). lia.
+  Qed.
 
   Lemma spec_step_plain : forall t x, Inv rank L I t -> no_fail x ->
+    length (elements (root t)) < cap L I H ->
     spec_step t (elements (root t)) x = plain_step (elements (root t)) x.
   Proof.
-    intros t x Hinv Hnf. destruct x as [o e|e|e|d]; cbn [spec_step plain_step]; auto.
-    pose proof (insert_refines elt rank dflt L I HI HI3 o t e Hinv) as H.
-    destruct (insert rank dflt L I o t e) as [[[st t'] o'] lg]. cbn [fst snd].
-    destruct H as (_ & _ & _ & _ & Hnf' & _). cbn [no_fail] in Hnf. specialize (Hnf' Hnf).
-    destruct st; try reflexivity. congruence.
+    intros t x Hinv Hnf Hsz. destruct x as [o e|e|e|d]; cbn [spec_step plain_step]; auto.
+    pose proof (no_overflow_below_cap o t e Hinv Hsz) as Hno.
+    pose proof (insert_refines elt rank dflt L I HI HI3 H o t e Hinv) as R.
+    destruct (insert rank dflt L I H o t e) as [[[st t'] o'] lg]. cbn [fst snd] in *.
+    destruct R as (_ & _ & _ & _ & Hnf' & _). cbn [no_fail] in Hnf. specialize (Hnf' Hnf).
+    destruct st; try reflexivity; congruence.
   Qed.
 
-  Lemma run_from_plain : forall ops t, Inv rank L I t -> Forall no_fail ops ->
+  Lemma run_from_plain : forall ops t, InvH t -> Forall no_fail ops ->
+    below_cap (elements (root t)) ops ->
     elements (root (fold_left step ops t)) = fold_left plain_step ops (elements (root t)).
   Proof.
-    induction ops as [|x ops IH]; intros t Hinv Hnf; cbn [fold_left]; [reflexivity|].
-    inversion Hnf as [|? ? Hx Hops]; subst x0 l.
+    induction ops as [|x ops IH]; intros t Hinv Hnf Hb; cbn [fold_left]; [reflexivity|].
+    inversion Hnf as [|? ? Hx Hops]; subst x0 l. cbn [below_cap] in Hb. destruct Hb as [Hsz Hb].
     destruct (step_inv t x Hinv) as [Hi He].
-    rewrite IH by assumption. rewrite He. rewrite spec_step_plain by assumption. reflexivity.
+    assert (E : elements (root (step t x)) = plain_step (elements (root t)) x).
+    { rewrite He. apply spec_step_plain; [apply Hinv|assumption|assumption]. }
+    rewrite IH; [|assumption|assumption|rewrite E; assumption]. rewrite E. reflexivity.
   Qed.
 
-  Theorem run_refines : forall ops, Forall no_fail ops ->
+  Theorem run_refines : forall ops, Forall no_fail ops -> below_cap [] ops ->
     elements (root (run ops)) = fold_left plain_step ops [].
   Proof.
-    intros ops Hnf. apply (run_from_plain ops empty_tree); [apply (Inv_empty _ rank dflt L I HI HI3)|assumption].
+    intros ops Hnf Hb. apply (run_from_plain ops empty_tree); [apply InvH_empty|assumption|assumption].
   Qed.
 End Hist.
 
@@ -129,5 +176,7 @@ Global Arguments step {elt}.
 Global Arguments run {elt}.
 Global Arguments plain_step {elt}.
 Global Arguments no_fail {elt}.
+Global Arguments below_cap {elt}.
+Global Arguments InvH {elt}.
 Global Arguments spec_step {elt}.
 Global Arguments spec_run_from {elt}.
